@@ -19,8 +19,8 @@ func init() {
 var pg = driver.NewPostgresDriver()
 
 func parseOpt(in string, df int) (*expr.Expression, error) {
-	if df == 1 {
-		return lucene.Parse(in, lucene.WithDefaultField("f"))
+	if df >= 1 {
+		return lucene.Parse(in, lucene.WithDefaultField(dfName(df)))
 	}
 	return lucene.Parse(in)
 }
@@ -33,9 +33,9 @@ func topLevel(in string, df int, parsed bool) {
 	}
 	var s, ps string
 	var err, perr error
-	if df == 1 {
-		s, err = lucene.ToPostgres(in, lucene.WithDefaultField("f"))
-		ps, _, perr = lucene.ToParameterizedPostgres(in, lucene.WithDefaultField("f"))
+	if df >= 1 {
+		s, err = lucene.ToPostgres(in, lucene.WithDefaultField(dfName(df)))
+		ps, _, perr = lucene.ToParameterizedPostgres(in, lucene.WithDefaultField(dfName(df)))
 	} else {
 		s, err = lucene.ToPostgres(in)
 		ps, _, perr = lucene.ToParameterizedPostgres(in)
@@ -136,6 +136,7 @@ var contexts = []string{
 	"f:[# TO 5]", "f:[1 TO #]", "f:{# TO #}", "f:(#)", "(#)", "(#) AND v", "v AND (#)",
 	"NOT #", "f:#", "f:>#", "v #", "# v", "#~2", "#^2", "f:[# TO *]", "-#", "+#", "f:>=#", "v OR #", "v~#", "v^#", "f:(# OR #)", "f:(# OR # OR #)", "#:v", "(#):x*", "#:[1 TO 2]", "f:# AND v",
 	"f:((#):v)", "f:(v OR (#):v)", "f:>((#):v)", "v AND f:((#):x*)", "f:>(#)",
+	"(#):x* AND v", "NOT (#):x*", "-(#):x", "((#):x)^2",
 }
 
 func init() { register("ParseCtx", H_ParseCtx) }
@@ -199,9 +200,15 @@ func init() {
 	register("DeriveCtx", H_DeriveCtx)
 }
 
+// oddDefaultFields: names a caller may pass as the default field that are not identifiers (DF = 2..).
+var oddDefaultFields = []string{"\"", "\"\"", "'", " ", "\\", "a\"", "\"\"\""}
+
 func dfName(df int) string {
 	if df == 1 {
 		return "f"
+	}
+	if df >= 2 && df-2 < len(oddDefaultFields) {
+		return oddDefaultFields[df-2]
 	}
 	return ""
 }
@@ -251,6 +258,7 @@ var ctxItems = [][]string{
 	{"f", ":", "[", "#", "TO", "*", "]"}, {"-", "#"}, {"+", "#"}, {"f", ":", ">", "=", "#"}, {"v", "OR", "#"}, {"v", "~", "#"}, {"v", "^", "#"}, {"f", ":", "(", "#", "OR", "#", ")"}, {"f", ":", "(", "#", "OR", "#", "OR", "#", ")"},
 	{"#", ":", "v"}, {"(", "#", ")", ":", "x*"}, {"#", ":", "[", "1", "TO", "2", "]"}, {"f", ":", "#", "AND", "v"},
 	{"f", ":", "(", "(", "#", ")", ":", "v", ")"}, {"f", ":", "(", "v", "OR", "(", "#", ")", ":", "v", ")"}, {"f", ":", ">", "(", "(", "#", ")", ":", "v", ")"}, {"v", "AND", "f", ":", "(", "(", "#", ")", ":", "x*", ")"}, {"f", ":", ">", "(", "#", ")"},
+	{"(", "#", ")", ":", "x*", "AND", "v"}, {"NOT", "(", "#", ")", ":", "x*"}, {"-", "(", "#", ")", ":", "v"}, {"(", "(", "#", ")", ":", "v", ")", "^", "2"},
 }
 
 func fixedTok(s string) dtok {
@@ -353,6 +361,11 @@ func H_ParseChain() {
 			buf = append(buf, 'a', ':')
 		case 8:
 			buf = append(buf, 'a', ':', '(')
+		case 9:
+			if i > 0 {
+				buf = append(buf, " OR "...)
+			}
+			buf = append(buf, 'a', ':', byte('a'+i%26))
 		}
 	}
 	switch shape {
@@ -371,8 +384,14 @@ func H_ParseChain() {
 	}
 	in := string(buf)
 	rtObserve("in", in)
+	if shape == 0 || shape == 9 {
+		sqlc, cerr := lucene.ToPostgres(in)
+		rtAssert("fragment-renders", cerr == nil && sqlc != "") // C03: any nesting depth, any length
+	}
+	var accepted [2]bool
 	for df := 0; df <= 1; df++ {
 		e, err := parseOpt(in, df)
+		accepted[df] = err == nil && e != nil
 		if err == nil && e != nil {
 			s := e.String()
 			rtObserveInt("len", len(s))
@@ -381,6 +400,7 @@ func H_ParseChain() {
 			_ = fmt.Sprintf("%#v", e)
 		}
 	}
+	rtAssert("same-acceptance", accepted[0] == accepted[1]) // C11: the option does not change what is accepted
 	rtReach("end")
 }
 
@@ -494,6 +514,9 @@ func init() { register("TreeTotality", H_TreeTotality) }
 // formatting and quoting (% ' " \\ and friends) - user text must never be treated as a format.
 func H_TreeTotality() {
 	forms := []int{lfBare, lfEqStr, lfEqInt, lfQuotedNasty, lfRegexpNasty, lfList, lfRangeIncl, lfWild}
+	if rtParam("FORMS") == 1 { // value lists and ranges with every kind of number
+		forms = []int{lfListInt, lfListMixed, lfFloat, lfRangeFloat, lfRangeMixed, lfListNested}
+	}
 	t := genTree(rtParam("D"), treeOps(), forms)
 	text := printNode(t, 0, &printOpts{})
 	rtObserve("text", text)
